@@ -223,11 +223,11 @@ Next == Sched \/ Env
 Spec == Init /\ [][Next]_vars
 
 \* ---------------------------------------------------------------- fairness (liveness configurations only)
-\* weak fairness of every scheduler action; strong fairness of taking an item from an unbuffered input
-\* against the competing tick (Go's select picks uniformly among ready cases); handlers eventually
+\* weak fairness of every scheduler action; strong fairness of taking an item from / seeing the closure of an unbuffered
+\* input against the competing tick (Go's select picks uniformly among ready cases); handlers eventually
 \* receive and release, producers eventually write and close
 SchedFair == /\ WF_vars(Start) /\ WF_vars(Calc) /\ WF_vars(FbOne) /\ SF_vars(Take) /\ WF_vars(Send)
-             /\ WF_vars(PollEmpty) /\ WF_vars(PollTick) /\ WF_vars(Drain) /\ WF_vars(Recalc) /\ WF_vars(RoundEnd)
+             /\ WF_vars(PollEmpty) /\ WF_vars(PollTick) /\ SF_vars(Drain) /\ WF_vars(Recalc) /\ WF_vars(RoundEnd)
              /\ WF_vars(FbLim) /\ WF_vars(LimDone) /\ WF_vars(FbFinal) /\ WF_vars(Closing)
 EnvFair == /\ WF_vars(Recv)
            /\ \A p \in Prios : WF_vars(Release(p)) /\ WF_vars(Produce(p)) /\ WF_vars(CloseIn(p))
